@@ -110,7 +110,7 @@ Example gbp_packed_fixed_refuted :
   let m := [(1, VList true [VScalar 6 (2 ^ 64 - 1)])] in
   wf_msg S_w [77] m = true /\
   plookup_root S_w [77] m [PField 1] = LFound (LRepeated true) (TScalar 6) 1 (VList true [VScalar 6 (2 ^ 64 - 1)]) /\
-  gbp S_w [77] (encode_msg m) [PField 1] = GPanicA.
+  gbp no_fixes S_w [77] (encode_msg m) [PField 1] = GPanicA.
 Proof. vm_compute. repeat split. Qed.
 
 (* 701: index -1 and index = length are reported as found *)
@@ -118,9 +118,9 @@ Example gbp_index_bounds_refuted :
   let m := [(2, VList true [VScalar 5 7; VScalar 5 8]); (3, VList false [VBytes 9 [120]])] in
   wf_msg S_w [77] m = true /\
   plookup_root S_w [77] m [PField 2; PIndex (-1)] = LNotFound true /\
-  gbp S_w [77] (encode_msg m) [PField 2; PIndex (-1)] = GFoundA 5 [7] /\
+  gbp no_fixes S_w [77] (encode_msg m) [PField 2; PIndex (-1)] = GFoundA 5 [7] 0 /\
   plookup_root S_w [77] m [PField 2; PIndex 2] = LNotFound true /\
-  gbp S_w [77] (encode_msg m) [PField 2; PIndex 2] = GFoundA 5 [26].
+  gbp no_fixes S_w [77] (encode_msg m) [PField 2; PIndex 2] = GFoundA 5 [26] 0.
 Proof. vm_compute. repeat split. Qed.
 
 (* 702: index 0 of an unpacked list: the cursor is already past the element tag *)
@@ -128,8 +128,8 @@ Example gbp_index0_unpacked_refuted :
   let m := [(3, VList false [VBytes 9 [120; 121]; VBytes 9 [122]])] in
   wf_msg S_w [77] m = true /\
   plookup_root S_w [77] m [PField 3; PIndex 0] = LFound LSingular (TScalar 9) 3 (VBytes 9 [120; 121]) /\
-  gbp S_w [77] (encode_msg m) [PField 3; PIndex 0] = GErrA /\
-  gbp S_w [77] (encode_msg m) [PField 3; PIndex 1] = GFoundA 9 [1; 122].
+  gbp no_fixes S_w [77] (encode_msg m) [PField 3; PIndex 0] = GErrA /\
+  gbp no_fixes S_w [77] (encode_msg m) [PField 3; PIndex 1] = GFoundA 9 [1; 122] 0.
 Proof. vm_compute. repeat split. Qed.
 
 (* 704: the unpacked list of the inner message runs on into the next sibling of the OUTER message
@@ -140,5 +140,21 @@ Example gbp_overrun_refuted :
   let m' := [(4, VMsg inner); (3, VList false [VBytes 9 [121]])] in      (* field order as written by a non-sorting encoder *)
   wf_msg S_w [77] m' = true /\
   plookup_root S_w [77] m' [PField 4; PField 3] = LFound (LRepeated false) (TScalar 9) 3 (VList false [VBytes 9 [120]]) /\
-  gbp S_w [77] (encode_msg m') [PField 4; PField 3] = GFoundA 19 [26; 1; 120; 26; 1; 121].
+  gbp no_fixes S_w [77] (encode_msg m') [PField 4; PField 3] = GFoundA 19 [26; 1; 120; 26; 1; 121] 2.
+Proof. vm_compute. repeat split. Qed.
+
+(* with every recorded repair applied (flags of ProtoGenericAlg all set) the same witnesses agree with the spec *)
+Definition all_fixes : fixes := mk_fixes true true true true true true true true true true.
+Example gbp_repaired_on_witnesses :
+  gbp all_fixes S_w [77] (encode_msg [(1, VList true [VScalar 6 (2 ^ 64 - 1)])]) [PField 1]
+    = GFoundA 19 (encode_msg [(1, VList true [VScalar 6 (2 ^ 64 - 1)])]) 1 /\
+  (let m := [(2, VList true [VScalar 5 7; VScalar 5 8]); (3, VList false [VBytes 9 [120]])] in
+   gbp all_fixes S_w [77] (encode_msg m) [PField 2; PIndex (-1)] = GNotFoundA /\
+   gbp all_fixes S_w [77] (encode_msg m) [PField 2; PIndex 2] = GNotFoundA /\
+   gbp all_fixes S_w [77] (encode_msg m) [PField 2; PIndex 1] = GFoundA 5 [8] 0) /\
+  (let m := [(3, VList false [VBytes 9 [120; 121]; VBytes 9 [122]])] in
+   gbp all_fixes S_w [77] (encode_msg m) [PField 3; PIndex 0] = GFoundA 9 [2; 120; 121] 0 /\
+   gbp all_fixes S_w [77] (encode_msg m) [PField 3; PIndex 2] = GNotFoundA) /\
+  (let m' := [(4, VMsg [(3, VList false [VBytes 9 [120]])]); (3, VList false [VBytes 9 [121]])] in
+   gbp all_fixes S_w [77] (encode_msg m') [PField 4; PField 3] = GFoundA 19 [26; 1; 120] 1).
 Proof. vm_compute. repeat split. Qed.
